@@ -528,6 +528,49 @@ theorem char_cell_on_vt (caps : TermPen.Caps) (cache : Pen) (cp : Nat) (hp : Pri
 example : Tickit.RBFlushX.Printable 0x10000 ∧ Tickit.RB.Utf8.wcwidth 0x10000 = 1 := by decide +kernel
 
 open Tickit.RBFlushX in
+/-- **goto_on_vt**: the bytes the xterm driver writes for a goto request of the flush are read by the VT as "cursor to
+    that line and column" (clamped to the screen, ending a pending wrap) and nothing else. -/
+theorem goto_on_vt (caps : TermPen.Caps) (cache : Pen) (s : XScreen) (hg : s.ps = .ground) (line col : Int)
+    (hl : 0 ≤ line) (hc : 0 ≤ col) :
+    s.interp (reqCalls caps cache (.goto line col)).flatten = s.moveTo line col := by
+  simp only [reqCalls, call_flatten]
+  exact XScreen.interp_gotoAbs s hg line col hl hc
+
+open Tickit.RBFlushX in
+/-- **erase_on_vt**: outside reverse video an erase request of `n ≥ 1` cells is read as ECH - `n` cells from the
+    cursor blank in the current background, cursor and pending wrap untouched - followed by "cursor right by `n`"
+    exactly when the flush asked for the cursor to move (`TICKIT_YES`); with `TICKIT_MAYBE` the cursor stays, which is
+    the outcome the flush allows for by sending a goto before the next run. -/
+theorem erase_on_vt (caps : TermPen.Caps) (cache : Pen) (hrv : Pen.getBool cache.reverse = false) (s : XScreen)
+    (hg : s.ps = .ground) (n : Int) (hn : 1 ≤ n) (m : MaybeBool) :
+    s.interp (reqCalls caps cache (.erasech n m)).flatten =
+      if m = .yes then (s.ech n).moveTo s.row (s.col + n) else s.ech n := by
+  simp only [reqCalls, hrv]
+  exact interp_erase s hg n hn m
+
+open Tickit.RBFlushX in
+/-- **text_on_vt**: a print request whose bytes are well-formed UTF-8 of printable code points is read as those code
+    points printed one after the other (`putCp`: one or two columns by the width tables, zero-width characters joining
+    the previous one): the columns the terminal advances by are the widths the library counted. -/
+theorem text_on_vt (caps : TermPen.Caps) (cache : Pen) (cps : List Nat) (hp : ∀ cp ∈ cps, Printable cp) (s : XScreen)
+    (hg : s.ps = .ground) :
+    s.interp (reqCalls caps cache (.print (cps.flatMap stdUtf8) 0 (cps.flatMap stdUtf8).length)).flatten =
+      cps.foldl XScreen.putCp s := by
+  rw [← XScreen.interp_text cps hp s hg]
+  simp only [reqCalls, List.drop_zero, List.take_length]
+  split
+  · rename_i h0
+    have : cps.flatMap stdUtf8 = [] := List.length_eq_zero_iff.1 h0
+    simp [this]
+  · rw [call_flatten]
+
+/-- Non-vacuity: goto (2, 5) on a 4 x 10 screen; an erase of three cells with the cursor moving on. -/
+example : ((Tickit.RBFlushX.XScreen.fresh 4 10).interp
+      (Tickit.RBFlushX.reqCalls ⟨false, false⟩ {} (.goto 2 5)).flatten).row = 2 ∧
+    ((Tickit.RBFlushX.XScreen.fresh 4 10).interp
+      (Tickit.RBFlushX.reqCalls ⟨false, false⟩ {} (.erasech 3 .yes)).flatten).col = 3 := by decide +kernel
+
+open Tickit.RBFlushX in
 /-- **flush_stream_any_buffer**: with the real xterm driver, the bytes the output function receives from a flush
     followed by `tickit_term_flush` - through an output buffer of *any* size `n` (`0`: none), starting with nothing
     pending - are the driver's writes in the order the flush made them: the output buffer neither drops, repeats nor
@@ -559,9 +602,12 @@ open Tickit.RBFlushX in
     the driver can say in SGR, whose texts are well-formed UTF-8 and whose CHAR cells are printable, flushed through an
     output buffer of any size to a VT whose rendition is in step with `tt->pen`, every screen cell satisfies the
     obligation of the buffer's content (`xcellOK`: glyph, all rendering attributes, written exactly once; untouched
-    where the buffer skips).  Proved below it: the output-buffer layer (`flush_stream_any_buffer`), the encoder and the
-    terminal's reading of a character cell (`char_encoding`, `char_cell_on_vt`), and, on the grid terminal, the whole
-    statement (`flush_spec_screen`). -/
+    where the buffer skips).  Proved: the output-buffer layer (`flush_stream_any_buffer`), the encoder and the
+    terminal's reading of a character cell (`char_encoding`, `char_cell_on_vt`), the terminal's reading of the driver's
+    goto, erase (outside reverse video) and text bytes as the cursor movement, ECH (+ CUF) and printed code points they
+    stand for (`goto_on_vt`, `erase_on_vt`, `text_on_vt`), and, on the grid terminal, the whole statement
+    (`flush_spec_screen`).  Missing: the reading of the SGR bytes as the pen (C10 proves it for its own interpreter), and
+    the composition of the per-request readings with `flush_spec_screen`. -/
 def C04_xterm_screen : Prop :=
   ∀ (caps : TermPen.Caps) (n : Nat) (rb : RB) (s : XScreen) (cache : Pen),
     FlushWF rb → (∀ l c, s.lines ≤ l ∨ s.cols ≤ c → want rb l c = .keep) →
